@@ -1,5 +1,5 @@
 // C20 — /.well-known/core lists exactly the registered resources in any window / filter.
-#include "lc.h"
+#include "../sim/helpers.h"
 #include "../ref/reflink.h"
 #include <memory>
 using namespace verif;
@@ -159,6 +159,7 @@ int verif_case(const uint8_t *tape, size_t tlen, Info *info) {
   info->mix(render.data(), render.size());
 
   // ---- build the real table ----
+  sim::World w;   // the block-wise GET at the end goes through the simulated network
   coap_context_t *ctx = coap_new_context(nullptr);
   if (!ctx) return OUT_OF_DOMAIN;
   std::vector<std::unique_ptr<Blob>> blobs;
@@ -181,6 +182,9 @@ int verif_case(const uint8_t *tape, size_t tlen, Info *info) {
     resources.push_back(res);
   }
   int verdict = HELD;
+  bool plain_filter = true;
+  bool shadowed = false;   // an application resource registered under the discovery path itself takes the GET
+  for (auto &r : table) if (r.path == ".well-known/core") shadowed = true;
   std::string L;
   uint64_t windows = 0;
   coap_string_t *qf = nullptr;
@@ -297,6 +301,59 @@ windows_only:
           }
         info->count("link_windows", (len + 3) * (len + 3));
       }
+    }
+  }
+  // ---- a block-wise GET of the resource reassembles to the same listing (all Block2 sizes over the cases; one per case) ----
+  // the filter travels as a Uri-Query option and comes back through coap_get_query(), which percent-encodes: only filters made of
+  // characters that pass unchanged are sent over the wire
+  plain_filter = flt_text.size() <= 200;
+  for (char c : flt_text) if (!(isalnum((unsigned char)c) || strchr("=*/._~-", c))) plain_filter = false;
+  if (verdict == HELD && !shadowed && (!flt.present || plain_filter)) {
+    unsigned szx = (unsigned)(L.size() + table.size()) % 7;   // derived from the case, no extra draw: earlier tapes keep their meaning
+    sim::Addr srv = sim::Addr::v4(10, 0, 0, 1, 5683);
+    coap_address_t la;
+    srv.to_coap(&la);
+    if (coap_new_endpoint(ctx, &la, COAP_PROTO_UDP)) {
+      w.add_context(ctx);
+      sim::Peer *p = w.add_peer(sim::Addr::v4(10, 0, 8, 1, 47000));
+      std::vector<ref::Msg> got;
+      p->on_rx = [&](sim::World &, sim::Peer &, const sim::Datagram &d) { ref::Msg m; if (simh::parse(d.data, &m)) got.push_back(m); };
+      std::string body;
+      bool done_all = false, bad = false;
+      for (unsigned num = 0; num < 600 && !done_all && !bad; num++) {
+        ref::Msg m;
+        m.type = 0; m.code = 1; m.mid = (uint16_t)(0x2200 + num); m.token = {0xc2, (uint8_t)num};
+        m.opts.push_back(ref::Opt{11, {'.', 'w', 'e', 'l', 'l', '-', 'k', 'n', 'o', 'w', 'n'}});
+        m.opts.push_back(ref::Opt{11, {'c', 'o', 'r', 'e'}});
+        if (flt.present) m.opts.push_back(ref::Opt{15, std::vector<uint8_t>(flt_text.begin(), flt_text.end())});
+        m.opts.push_back(ref::Opt{23, simh::uint_opt(num << 4 | szx)});
+        got.clear();
+        w.steps = 0;
+        w.trace.clear();
+        w.peer_send(p, srv, ref::encode(m, ref::F_UDP));
+        w.run(w.now + 5, 4000);
+        const ref::Msg *r = nullptr;
+        for (auto &g : got) if (g.code != 0 && g.token == m.token) r = &g;
+        if (!r) { info->fail("Block2 GET (szx %u): no response to block %u", szx, num); bad = true; break; }
+        if (r->code != 0x45) {
+          // an empty listing is answered 4.04 by design (nothing matches) - only then
+          if (L.empty()) { done_all = true; break; }
+          info->fail("Block2 GET (szx %u): block %u answered %u.%02u", szx, num, r->code >> 5, r->code & 31); bad = true; break;
+        }
+        const ref::Opt *b2 = simh::find_opt(*r, 23);
+        body.append(r->payload.begin(), r->payload.end());
+        if (!b2) { done_all = true; break; }
+        uint32_t v = simh::opt_uint(b2->val);
+        if ((v >> 4) != num) { info->fail("Block2 GET (szx %u): asked for block %u, got block %u", szx, num, v >> 4); bad = true; break; }
+        if ((v & 7) > szx) { info->fail("Block2 GET: asked for szx %u, got szx %u", szx, v & 7); bad = true; break; }
+        if ((v & 7) != szx) { szx = v & 7; /* the server chose a smaller size for block 0: continue in that size */ if (num != 0) { info->fail("Block2 GET: block size changed in the middle"); bad = true; break; } }
+        if (!(v & 8)) done_all = true;
+        else if (r->payload.size() != (16u << szx)) { info->fail("Block2 GET (szx %u): block %u has %zu bytes but more follow", szx, num, r->payload.size()); bad = true; break; }
+      }
+      w.remove_context(ctx);
+      if (!bad && body != L) { info->fail("Block2 GET (szx %u): the reassembled body (%zu bytes) differs from the listing (%zu bytes)", szx, body.size(), L.size()); bad = true; }
+      info->count("block2_gets", 1);
+      if (bad) verdict = VIOLATION;
     }
   }
 done:
